@@ -86,6 +86,13 @@ def verify():
     if not sized or sized[1] <= 65537:
         raise ControlFailure("allocation range control: %s" % (sized,))
     res["alloc_range"] = sized
+    # narrowing-cast matcher (C07-S8)
+    from rules_pdu import narrowing_casts
+
+    nc = {f.name: lossless for f, b, st, frm, to, lossless in narrowing_casts(prog, list(prog.by_norm.values()))}
+    if nc.get("narrow") is not False or nc.get("narrow_ok") is not True:
+        raise ControlFailure("narrowing-cast matcher: %s" % nc)
+    res["narrowing_casts"] = {k: ("lossless" if v else "can truncate") for k, v in nc.items()}
     # normalisation: a new private helper is spliced into its caller (sa/inline.py), the flag
     # computed in the caller still guards the helper's body, and the mod summary of the caller
     # is what it was for the unsplit function
